@@ -102,13 +102,18 @@ def run(chk, scratch):
                 um = unmapped[fi::k] if name != "twins-apart" else (unmapped if fi == k - 1 else [])
                 rs = [r for r in mapped if assign(r) == fi] + um
                 # the @SQ lines of the second file of the random partition are in reverse order (each file is sorted against its own header)
-                w.write_bam(p, reads=rs, chrom_order=w.chrom_order[::-1] if (name == "random3" and fi == 1) else None)
+                co_ = w.chrom_order[::-1] if (name == "random3" and fi == 1) else None
+                if name == "bychrom-own-headers":
+                    # every file lists only the sequences it has records on (a BAM split by chromosome and re-headered)
+                    co_ = [c_ for c_ in w.chrom_order if any(r_.chrom == c_ for r_ in rs if not r_.flag & 4)]
+                w.write_bam(p, reads=rs, chrom_order=co_)
                 files.append(p)
             parts[name] = files
         rmap = {r.name: rng.randrange(3) for r in mapped}
         write_parts("random3", lambda r: rmap[r.name], 3)
         write_parts("bychrom", lambda r: w.chrom_order.index(r.chrom) % 2, 2)
         write_parts("twins-apart", lambda r: 1 if r.truth.get("twin") else 0, 2)
+        write_parts("bychrom-own-headers", lambda r: w.chrom_order.index(r.chrom) % 2, 2)
         write_parts("tailless-first", lambda r: 0 if r.truth.get("tailless_twin") else 1, 2)
         write_parts("primary-last", lambda r: 1 if (r.truth.get("same_span_primary") and not r.flag & 256) else 0, 2)
         if thorough:
